@@ -1,0 +1,49 @@
+//go:build verif
+
+package remote
+
+import (
+	pb "github.com/bazelbuild/remote-apis/build/bazel/remote/execution/v2"
+
+	"github.com/thought-machine/please/src/core"
+)
+
+// VerifNewDirBuilder returns a fresh dirBuilder (its methods Dir, Build, Tree and Node are exported).
+func VerifNewDirBuilder() *dirBuilder {
+	return newDirBuilder(nil)
+}
+
+// VerifOfflineClient returns a Client that never connects anywhere: it carries only the fields that
+// computing input roots, commands and action digests reads.
+func VerifOfflineClient(state *core.BuildState, userHome string) *Client {
+	return &Client{
+		state:     state,
+		instance:  state.Config.Remote.Instance,
+		outputs:   map[core.BuildLabel]*pb.Directory{},
+		platform:  convertPlatform(state.Config.Remote.Platform),
+		shellPath: state.Config.Remote.Shell,
+		userHome:  userHome,
+	}
+}
+
+// VerifSetOutputs records the (flattened) output directory of an already built target, as setOutputs would.
+func (c *Client) VerifSetOutputs(label core.BuildLabel, dir *pb.Directory) {
+	c.outputMutex.Lock()
+	defer c.outputMutex.Unlock()
+	c.outputs[label] = dir
+}
+
+// VerifBuildEnv calls buildEnv.
+func (c *Client) VerifBuildEnv(target *core.BuildTarget, env core.BuildEnv, sandbox bool) []*pb.Command_EnvironmentVariable {
+	return c.buildEnv(target, env, sandbox)
+}
+
+// VerifInputRoot calls uploadInputs without uploading anything.
+func (c *Client) VerifInputRoot(target *core.BuildTarget, isTest bool) (*pb.Directory, error) {
+	return c.uploadInputs(nil, target, isTest)
+}
+
+// VerifBuildAction calls buildAction.
+func (c *Client) VerifBuildAction(target *core.BuildTarget, isTest, stamp bool) (*pb.Command, *pb.Digest, error) {
+	return c.buildAction(target, isTest, stamp, 0)
+}
